@@ -59,4 +59,14 @@ if __name__ == "__main__":
     for c, v in r.get("checks", {}).items():
         print(c, "exit", v["exit"]); print("\n".join(v["tail"][-6:]))
     out = V / "seeded" / sys.argv[1] / "last_run.json"
+    if out.exists():
+        # keep the demonstration / suite verification of an earlier --verify run when this run did not repeat it
+        try:
+            prev = json.loads(out.read_text())
+            for k in ("demo_without_patch", "demo_with_patch", "pytest_tail"):
+                if k not in r and k in prev:
+                    r[k] = prev[k]
+                    r.setdefault("verified_at_repo_head", prev.get("verified_at_repo_head", prev.get("repo_head")))
+        except Exception:
+            pass
     out.write_text(json.dumps(r, indent=1))
